@@ -44,6 +44,14 @@ CLAIMED = {
               "in-process (41k evaluations per quick run, Spec judged on the implementation's own dumps)."),
         note=TB + "Source switches (start id, NOACK, reversed range, explicit-id history) are detected by regex in lib/c16.py; idle times are Booleans; SETID histories are outside exactly_once.",
         ref="DESIGN.md section 5 C16"),
+    "C05": dict(
+        text=("Proof: for every pipeline of command frames, every handler and EVERY segmentation of the request bytes the connection loop emits exactly the sequential replies "
+              "(same number, order, content, final state, connection open); a protocol violation is answered with an error after the preceding replies and the connection closed; "
+              "error/simple-string replies frame correctly whatever bytes their text carries - Lean theorems over Model/Conn.lean built on C20's chunking independence; the same "
+              "segments are given to the real server and to `connRun` over KS.step and compared frame by frame (pipelines up to 200 commands, byte-at-a-time and CRLF-splitting "
+              "segmentations, protocol errors, non-command frames, SUBSCRIBE-family pipelines, every dispatched name x arity/type matrix)."),
+        note=TB + "Handlers are a parameter of the theorems; partial writes/back-pressure are exercised, not modelled; blocking pops, MONITOR, SYNC and transactions are judged by their own properties.",
+        ref="DESIGN.md section 5 C05"),
     "C04": dict(
         text=("Proof: the skip-list invariant (level 0 strictly sorted by (score, member), every level a sublist of the one below, key index = level 0, length) for every "
               "operation sequence and every tower height, refinement of insert/remove to the sorted-list Spec, engine-level refinement for ZADD/ZINCRBY/ZREM/ZPOP histories, "
